@@ -19,6 +19,7 @@ HEADER = ("From Coq Require Import List String ZArith.\nImport ListNotations.\n"
 SNAP = """function snap($v) { if (is_array($v)) { $r = []; foreach ($v as $k => $x) { $r[] = [$k, snap($x)]; } return $r; } return $v; }
 function s($l, $v) { echo $l, "\\t", json_encode(snap($v)), "\\n"; }
 function setit99(&$x) { $x = 99; }
+function refnoop(&$x) { return 0; }
 """
 
 # ---------------------------------------------------------------------------- literals / shapes
@@ -59,23 +60,29 @@ def php_key(k):
 class Shape:
     """lit: the literal; extra: [(key, int)] stores applied after the literal (built shapes)"""
 
-    def __init__(self, name, lit, extra=()):
-        self.name, self.lit, self.extra = name, lit, list(extra)
+    def __init__(self, name, lit, extra=(), post=()):
+        """post: [(php template with %s = the variable, Coq statement template with %s = the quoted variable name)]:
+        statements run on the variable after it is set up and BEFORE any copy is made"""
+        self.name, self.lit, self.extra, self.post = name, lit, list(extra), list(post)
 
     @property
     def literal_only(self):
-        return not self.extra
+        return not self.extra and not self.post
 
     def php_setup(self, var):
         s = "%s = %s;" % (var, php_lit(self.lit))
         for k, v in self.extra:
             s += " %s%s = %d;" % (var, php_key(k), v)
+        for php, _ in self.post:
+            s += " " + php % var
         return s
 
     def model_setup(self, x):
         st = ["SLit %s (%s)" % (cs(x), coq_lit(self.lit))]
         for k, v in self.extra:
             st.append("SMut (BVar %s) [%s] (AStore %s)" % (cs(x), coq_key(k), coq_z(v)))
+        for _, mdl in self.post:
+            st.append(mdl % cs(x))
         return st
 
     # what the top level looks like after setup
@@ -95,7 +102,12 @@ class Shape:
         return depth(self.lit)
 
 
+QUICK = True
+
+
 def shapes(rng, quick):
+    global QUICK
+    QUICK = quick
     def ints(n):
         # descending: an in-place sort of the list (top level or nested) always changes it
         return sorted(rng.sample(range(1, 30), n), reverse=True)
@@ -115,12 +127,20 @@ def shapes(rng, quick):
         # all-keyed literals (ObjectValue) of 9 and 17 keys: a copy strategy that depends on the size of the
         # store (seeded C06-7: cells shared above 8 keys) is only visible above its threshold
         Shape("assoc9", ("assoc", [("k%d" % i, i + 1) for i in range(9)])),
-        Shape("assoc17", ("assoc", [("k%d" % i, i + 1) for i in range(17)])),
+        # an element was passed to a by-reference parameter BEFORE the copy; the call has returned, no reference is
+        # left (seeded C06-11: the slot stayed write-through for ever).  Model image: the binder's OwnSlot, value unchanged
+        Shape("list3-after-refcall", ("list", [21, 14, 8]),
+              post=[("refnoop(%s[0]);", "SRefParamStore (BVar %s) [KI 0] 21"), ("refnoop(%s[2]);", "SRefParamStore (BVar %s) [KI 2] 8")]),
+        Shape("built-mixed-after-refcall", ("list", [12, 6]), [("k", 7)],
+              post=[("refnoop(%s[1]);", "SRefParamStore (BVar %s) [KI 1] 6")]),
+        # lists that carry EXPLICIT keys (a sparse int key / a string key stored into a list): whole-array built-ins
+        # take another path for them (seeded C06-12: sort() rewrote the shared cells)
+        Shape("built-sparse", ("list", [19, 11, 4]), [(7, 2)]),
         Shape("list0", ("list", [])),
         Shape("holds-empty", ("list", [("list", []), 1])),
     ]
     if not quick:
-        res += [Shape("assoc%d" % n, ("assoc", [("k%d" % i, i + 1) for i in range(n)])) for n in (8, 16, 32, 33, 64, 65)]
+        res += [Shape("assoc%d" % n, ("assoc", [("k%d" % i, i + 1) for i in range(n)])) for n in (8, 16, 17, 32, 33, 64, 65)]
         res += [Shape("list%d" % n, ("list", ints(n) if n <= 25 else list(range(n, 0, -1)))) for n in (8, 9, 16, 17, 33)]
         res += [Shape("list7", ("list", ints(7))),
                 Shape("nested2b", ("list", [5, ("list", ints(3)), 6])),
@@ -217,7 +237,7 @@ def mutations(shape, base_is_var, prefix_empty):
                         lambda lv: "usort(%s, function($p, $q) { return $p <=> $q; });" % lv))
             res.append(("array-walk", (), "STMT:SWalkStore %%(var)s 97",
                         lambda lv: "array_walk(%s, function(&$v, $k) { $v = 97; return 97; }, null);" % lv))   # this array_walk stores the callback's RESULT; the by-reference form is there for the day it is repaired
-        if base_is_var and prefix_empty and allint and n >= 2:
+        if base_is_var and prefix_empty and allintvals and n >= 2:
             res.append(("sort", (), "ASort", lambda lv: "sort(%s);" % lv))
         if base_is_var and prefix_empty and not strkeys:
             res.append(("push", (), "APush 96", lambda lv: "array_push(%s, 96);" % lv))
@@ -365,6 +385,8 @@ def routes(shape):
     # the copy), on functions, methods, static methods and closures
     for wname in ("param-array", "param-nullable-array", "param-iterable", "param-union", "param-method", "param-static-method",
                   "param-closure", "param-closure-typed-use"):
+        if QUICK and wname in ("param-iterable", "param-union", "param-closure-typed-use"):
+            continue      # thorough tier only (the quick tier keeps array / ?array on function, method, static method, closure)
         if wname == "param-iterable" and shape.lit[0] != "list":
             continue      # `iterable` does not accept an all-keyed array (an ObjectValue) in this interpreter: a type-check matter (C07)
         res.append((wname, "", shape.php_setup("$a"), shape.model_setup("a") + ["SCopy \"p\" \"a\""],
@@ -395,6 +417,19 @@ def routes(shape):
     res.append(("elem-store-call", "function viaReturn($x) { return $x; }\n", shape.php_setup("$a") + " $w = []; $w['x'] = viaReturn($a);",
                 shape.model_setup("a") + ["SCopy \"x\" \"a\"", "SLit \"w\" (LList [])", "SElemStore \"w\" (KS \"x\") \"x\""],
                 var_side("a"), elem_side("w", "x"), False, ("copy", "orig"), None))
+    # a KEYED literal whose entry is the variable (seeded C06-10: the literal stored the evaluated value as is)
+    res.append(("in-keyed-literal", "", shape.php_setup("$a") + " $w = ['z' => 0, 'k' => $a];",
+                shape.model_setup("a") + ["SLit \"w\" (LAssoc [(\"z\", LInt 0)])", "SElemStore \"w\" (KS \"k\") \"a\""],
+                var_side("a"), elem_side("w", "k"), False, ("copy", "orig"), None))
+    res.append(("in-keyed-literal-first", "", shape.php_setup("$a") + " $w = ['k' => $a, 'z' => 0];",
+                shape.model_setup("a") + ["SLit \"w\" (LAssoc [])", "SElemStore \"w\" (KS \"k\") \"a\"", "SSetInt \"zero\" 0", "SElemStore \"w\" (KS \"z\") \"zero\""],
+                var_side("a"), elem_side("w", "k"), False, ("copy", "orig"), None))
+    if shape.literal_only:
+        res.append(("method-return-keyed-literal", "class C5 { public $p = %s; public function toArray() { return ['z' => 0, 'items' => $this->p]; } }\n" % lit,
+                    "$o = new C5(); $res = $o->toArray();",
+                    ["SNewObj \"o\" \"p\" (%s)" % coq_lit(shape.lit), "SPropRead \"t\" \"o\" \"p\"",
+                     "SLit \"res\" (LAssoc [(\"z\", LInt 0)])", "SElemStore \"res\" (KS \"items\") \"t\""],
+                    prop_side("o", "p"), elem_side("res", "items"), False, ("copy", "orig"), None))
     # array_push($w, $a)
     res.append(("in-array-push", "", shape.php_setup("$a") + " $w = []; array_push($w, $a);",
                 shape.model_setup("a") + ["SLit \"w\" (LList [])", "SElemAppend \"w\" \"a\""],
